@@ -503,6 +503,33 @@ func c02InterfaceProject(r *Rand) *c02Input {
 	return &c02Input{Files: files, Lint: lint, Site: "multi-file-interface-derivations"}
 }
 
+// c02MultiRepoProject: files of two or three repositories with different configurations in one
+// invocation: which configuration a file is checked with must not depend on scheduling.
+func c02MultiRepoProject(r *Rand) *c02Input {
+	files := map[string]string{}
+	var lint []string
+	nrepo := r.Range(2, 3)
+	for k := 0; k < nrepo; k++ {
+		d := fmt.Sprintf("repo%c", 'A'+k)
+		files[d+"/.git/HEAD"] = "ref: refs/heads/main\n"
+		if k != 1 { // the second repository has no configuration at all
+			files[d+"/.github/actionlint.yaml"] = fmt.Sprintf("self-hosted-runner:\n  labels: [box-%d]\nconfig-variables: [VAR_%d]\npaths:\n  .github/workflows/f0.yml:\n    ignore: ['property \"nope\" is not defined']\n", k, k)
+		}
+		nf := r.Range(2, 3)
+		for i := 0; i < nf; i++ {
+			name := fmt.Sprintf("%s/.github/workflows/f%d.yml", d, i)
+			files[name] = fmt.Sprintf("on: push\njobs:\n  j:\n    runs-on: [self-hosted, box-%d]\n    steps:\n      - run: echo ${{ vars.VAR_%d }} ${{ github.nope }}\n", k, k)
+			lint = append(lint, name)
+		}
+	}
+	p := r.Perm(len(lint))
+	out := make([]string, len(lint))
+	for i, q := range p {
+		out[i] = lint[q]
+	}
+	return &c02Input{Files: files, Lint: out, Site: "multi-repo-configs"}
+}
+
 func c02CheckLib(c *Case, in *c02Input, reps int, tag string) {
 	root := mkScratch("c02")
 	defer os.RemoveAll(root)
@@ -601,6 +628,9 @@ func runC02(r *Run) {
 	fams = append(fams, &Family{Name: "multi-file-interfaces", N: r.Q(40, 600), Par: 4, Do: func(c *Case) {
 		c02CheckLib(c, c02InterfaceProject(c.R), reps*2, "mfi")
 	}})
+	fams = append(fams, &Family{Name: "multi-repo-lib", N: r.Q(20, 300), Par: 4, Do: func(c *Case) {
+		c02CheckLib(c, c02MultiRepoProject(c.R), reps*2, "mr")
+	}})
 	// multi-file projects with shared broken callees (library, LintFiles)
 	fams = append(fams, &Family{Name: "multi-file-lib", N: r.Q(6, 60), Par: 4, Do: func(c *Case) {
 		c02CheckLib(c, c02MultiFileProject(c.R), reps, "mf")
@@ -697,10 +727,12 @@ func runC02(r *Run) {
 		}})
 		r.Extra("second_toolchain", "go1.26.8")
 	}
-	fams = append(fams, &Family{Name: "cli-multi-file", N: r.Q(12, 80), Par: 4, Do: func(c *Case) {
+	fams = append(fams, &Family{Name: "cli-multi-file", N: r.Q(18, 120), Par: 4, Do: func(c *Case) {
 		in := c02MultiFileProject(c.R)
-		if c.Idx%2 == 1 {
+		if c.Idx%3 == 1 {
 			in = c02InterfaceProject(c.R)
+		} else if c.Idx%3 == 2 {
+			in = c02MultiRepoProject(c.R)
 		}
 		var extra []string
 		switch c.Idx % 3 {
